@@ -1,0 +1,13 @@
+//go:build verif
+
+package iotools
+
+// SimYield is a scheduling hook used only by the deterministic simulation
+// harness (build tag "verif"). See internal/cli.SimYield.
+var SimYield func(owner any, point string, seq int64)
+
+func simYield(owner any, point string, seq int64) {
+	if f := SimYield; f != nil {
+		f(owner, point, seq)
+	}
+}
